@@ -125,7 +125,20 @@ func (p *c20) Init(tier string) {
 	}
 	p.inits = []map[string]any{{}, {"k1": 5.0}, {"K2": "y", "k3": true}}
 	p.depth = 2
-	menu := p.short
+	// follow-up queries: lists of <= 2 operations over the first 10 operations (the later ones are
+	// covered as first queries and in every list of length <= 2 of the first level)
+	var menu [][]int
+	for _, l := range p.short {
+		late := false
+		for _, oi := range l {
+			if oi >= 10 {
+				late = true
+			}
+		}
+		if !late {
+			menu = append(menu, l)
+		}
+	}
 	if tier == "thorough" {
 		p.depth = 3
 	}
